@@ -63,9 +63,17 @@ struct in_emit {
     uint8_t mapper_known;
 };
 
+/* small-frame instances (MTU below the property's range, code uniform in MTU): a MAXIMUM-SIZE Emit - as many descriptors as
+ * the frame holds, the last one ending on or near the last byte of the receive buffer - becomes reachable with n <= 3 */
+#ifdef V_SMALL_MTU
+#define V_ENV_EMIT(c) do { g_cfg = (c); V_ASSUME(g_cfg.mtu == V_MTU_FIXED); \
+                           { struct v_cfg c2_ = g_cfg; c2_.mtu = 576; V_ASSUME(v_cfg_ok(&c2_)); } v_env_reset(); } while (0)
+#else
+#define V_ENV_EMIT(c) V_ENV(c)
+#endif
 #define EMIT_PROLOGUE(FN) \
     V_INPUT(FN, struct in_emit, in); \
-    V_ENV(in.cfg); \
+    V_ENV_EMIT(in.cfg); \
     V_ASSUME(g_cfg.mtu == V_MTU_FIXED && !g_cfg.mtu_fail); g_cfg.mtu = V_MTU_FIXED; g_cfg.mtu_fail = 0; \
     g_ctx = &v_ctx_obj; \
     V_ASSUME(in.mapper_known <= 1); \
